@@ -510,6 +510,41 @@ func uncheckedAsserts(dir string) []string {
 	return out
 }
 
+// emissionSites lists every call of one of the handler's send functions in the non-test files of a
+// package as "file:func:callee", sorted (one entry per call): the inventory of places where the code
+// can put a packet on either link.  The model's emission sites (Lemmas/GwEmits.lean `Sites`, and the
+// frame lemmas of the all-runs theorems) are written against this inventory.
+func emissionSites(dir string, callees map[string]bool) []string {
+	fset := token.NewFileSet()
+	pkgs, err := parser.ParseDir(fset, dir, func(fi os.FileInfo) bool { return !strings.HasSuffix(fi.Name(), "_test.go") }, 0)
+	if err != nil {
+		return []string{"PARSE-ERROR"}
+	}
+	var out []string
+	for _, pkg := range pkgs {
+		for fname, f := range pkg.Files {
+			for _, d := range f.Decls {
+				fd, ok := d.(*ast.FuncDecl)
+				if !ok || fd.Body == nil {
+					continue
+				}
+				ast.Inspect(fd.Body, func(n ast.Node) bool {
+					ce, ok := n.(*ast.CallExpr)
+					if !ok {
+						return true
+					}
+					if se, ok := ce.Fun.(*ast.SelectorExpr); ok && callees[se.Sel.Name] {
+						out = append(out, filepath.Base(fname)+":"+fd.Name.Name+":"+se.Sel.Name)
+					}
+					return true
+				})
+			}
+		}
+	}
+	sort.Strings(out)
+	return out
+}
+
 // packageVars lists the package-level variables of a package (non-test files) as "name = init", sorted:
 // state shared by all sessions would have to live there (or behind a pointer handed to every handler).
 func packageVars(dir string) []string {
@@ -624,6 +659,12 @@ func main() {
 	}
 
 	fmt.Fprintf(&sb, "def packageVars_gateway : List String := %s\n", leanStrList(packageVars(filepath.Join(repo, "gateway"))))
+
+	sb.WriteString("\n-- every place where the gateway can put a packet on the broker link / the client link\n")
+	fmt.Fprintf(&sb, "def mqttSendSites_gateway : List String := %s\n", leanStrList(emissionSites(filepath.Join(repo, "gateway"),
+		map[string]bool{"mqttSend": true, "pingBroker": true, "ProceedMQTT": true})))
+	fmt.Fprintf(&sb, "def snSendSites_gateway : List String := %s\n", leanStrList(emissionSites(filepath.Join(repo, "gateway"),
+		map[string]bool{"snSend": true, "snSendNow": true, "ProceedSN": true, "flushPktBuffer": true})))
 
 	sb.WriteString("\n-- cmd/: predefined-topics pipeline and plaintext-credentials guard of each tool\n")
 	for _, tool := range []string{"bisquitt", "bisquitt-pub", "bisquitt-sub"} {
